@@ -254,6 +254,27 @@ def run_case(case, ctx):
         if abs(float(rich.step_ratio) - r) > 0:
             ctx.reject('richardson_step_ratio_differs_from_rule_ratio', observed=float(rich.step_ratio), expected=r)
             return
+        # with fewer estimates than terms + 1 the stage works with correspondingly fewer terms: those must be the *leading*
+        # surviving powers (whatever is left of the table when steps are scarce still has to remove h^method_order first)
+        for L in range(2, int(rich.num_terms) + 2):
+            wL = np.asarray(rich.rule(L), dtype=float)
+            if len(wL) != min(int(rich.num_terms), L - 1) + 1:
+                ctx.reject('richardson_short_rule_length', observed=len(wL), expected=min(int(rich.num_terms), L - 1) + 1)
+                return
+            sa = float(np.sum(np.abs(wL)))
+            if EPS * sa > 1e-6:
+                continue
+            ctx.count('short_richardson_rules_asserted')
+            if abs(float(np.sum(wL)) - 1.0) > 1e-9 * sa:
+                ctx.reject('richardson_short_rule_does_not_sum_to_one', observed=wL, detail=dict(length=L))
+                return
+            for j in range(len(wL) - 1):
+                p = surviving[j] if j < len(surviving) else surviving[0] + j * int(rich.step)
+                mom = float(sum(wL[i] * r ** (-i * p) for i in range(len(wL))))
+                if abs(mom) > 1e-7 * sa:
+                    ctx.reject('richardson_short_rule_leaves_a_leading_power', observed=wL, expected=p,
+                               detail=dict(length=L, power=p, moment=mom, surviving=surviving[:4]))
+                    return
     except Exception as exc:
         ctx.count('pairing_call_raised:%s' % type(exc).__name__)
     # the same configuration reached through the setters of an object that has already been used with another
